@@ -320,6 +320,7 @@ CHUNK_PREFIX = b"HTTP/1.1 200 OK\r\nTransfer-Encoding: chunked\r\n\r\n"
 
 class C05(Prop):
     id = "C05"
+    thorough_rounds = 1          # its thorough tier is dominated by an exhaustive enumeration
     spec_type = True
 
     def gen(self, ctx):
@@ -1347,6 +1348,7 @@ class C16(Prop):
 
 class C17(Prop):
     id = "C17"
+    thorough_rounds = 1          # exhaustive strings dominate
     spec_type = True
 
     def gen(self, ctx):
@@ -1674,18 +1676,40 @@ def run(prop_id, tier, seed, replay=None):
         if rp.get("minimized"):
             ctx.add(rp["minimized"]["kind"], rp["minimized"]["args"])
     else:
-        corpus = os.path.join(ROOT, "corpus", prop_id)
-        if os.path.isdir(corpus):
-            for fn in sorted(os.listdir(corpus)):
-                for line in open(os.path.join(corpus, fn)):
-                    parts = line.rstrip("\n").split("\t")
-                    if len(parts) >= 1 and parts[0]:
-                        ctx.add(parts[0], parts[1:], corpus=fn)
         P.gen(ctx)
+        if tier == "thorough":
+            # deeper: the families again from further PRNG streams derived from the same seed (fixed families
+            # repeat; they are small next to the random ones)
+            for k in range(1, getattr(P, "thorough_rounds", 3)):
+                ctx.rng = random.Random(f"{prop_id}/{seed}/round{k}")
+                P.gen(ctx)
     log(f"[{prop_id}] {len(ctx.cases)} cases, profiles {P.profiles}")
 
     tie_bad, rel_bad, known_hits = [], [], {}
     unmodelled = 0
+    # the corpus (inputs that once told a broken tree from the real one; tools/seeded.py corpus) runs first,
+    # through the model/implementation comparison only: its cases carry no generator metadata
+    cctx = Ctx(prop_id, tier, seed)
+    corpus = os.path.join(ROOT, "corpus", prop_id)
+    if not replay and os.path.isdir(corpus):
+        for fn in sorted(os.listdir(corpus)):
+            for line in open(os.path.join(corpus, fn)):
+                parts = line.rstrip("\n").split("\t")
+                if len(parts) >= 1 and parts[0]:
+                    cctx.add(parts[0], parts[1:], corpus=fn)
+    corpus_bad = []
+    if cctx.cases:
+        for prof in P.profiles:
+            cimpl, cmodel = vlib.run_sides(os.path.join(work, "corpus-" + prof), cctx.cases, prof)
+            for cid, kind, args in cctx.cases:
+                if cid not in cimpl or cid not in cmodel or "generr:needs-fold" in cmodel[cid][0]:
+                    continue
+                try:
+                    a, b = P.project(cctx, cid, cimpl[cid][0]), P.project(cctx, cid, cmodel[cid][0])
+                except (KeyError, ValueError, IndexError):
+                    continue        # a projection that needs generator metadata: not applicable to corpus cases
+                if a != b and not P.known(cctx, cid, "corpus"):
+                    corpus_bad.append((prof, cid, f"model and implementation differ on a corpus case ({prof}): impl={a[:300]} model={b[:300]}"))
     impl_by_profile = {}
     for prof in P.profiles:
         impl, model = vlib.run_sides(os.path.join(work, prof), ctx.cases, prof)
@@ -1765,6 +1789,12 @@ def run(prop_id, tier, seed, replay=None):
             if small != ctx.meta[ids[0]]["args"]:
                 violation["minimized"] = {"kind": ctx.meta[ids[0]]["kind"], "args": small, "runs": nruns,
                                           "note": "smaller input on which model and implementation still differ (delta debugging)"}
+    elif corpus_bad:
+        prof, cid, msg = corpus_bad[0]
+        violation = {"kind": "correspondence-broken", "profile": prof, "message": msg,
+                     "cases": [{"id": cid, "kind": cctx.meta[cid]["kind"], "args": cctx.meta[cid]["args"]}],
+                     "theorems": proof["theorems"], "found": bool(P.spec_type),
+                     "note": "a corpus case (corpus/%s): the code no longer behaves like the model on it" % prop_id}
     elif not proof["ok"]:
         violation = {"kind": "proof-broken", "message": proof["log"][-1500:], "cases": [], "theorems": proof["theorems"], "found": False}
 
@@ -1791,6 +1821,7 @@ def run(prop_id, tier, seed, replay=None):
         "traces_validated_against_impl": len(ctx.cases) * len(P.profiles),
         "not_compared_needs_folding": unmodelled,
         "tie_mismatches": len(tie_bad), "relation_failures": len(rel_bad),
+        "corpus_cases": len(cctx.cases), "corpus_mismatches": len(corpus_bad),
         "known_finding_hits": {k: len(v) for k, v in known_hits.items()},
         "verdict_histogram": hist,
         "profiles": list(P.profiles),
